@@ -1,7 +1,7 @@
 #!/bin/bash
 # usage: mkseed2.sh C02 C04 ...   (second round: the prompt names the first round's change so that a different one is planted)
 for p in "$@"; do
-  git -C /repo worktree add -q --detach /tmp/seed_${p}b HEAD
+  git -C /repo worktree add -q --detach /tmp/seed_${p}${SUF:-b} HEAD
   /venv/bin/python - "$p" <<'PY'
 import sys, json, glob, os
 pid=sys.argv[1]
@@ -12,9 +12,9 @@ for l in open('/verif/properties.jsonl'):
 prev=[]
 for d in sorted(glob.glob('/verif/seeded/%s-*/meta.json'%pid)):
     prev.append(json.load(open(d)).get('needs_to_manifest',''))
-t=open('/verif/vlib/breaker_prompt.txt').read().replace('{WT}','/tmp/seed_'+pid+'b').replace('{PROP}',prop)
+t=open('/verif/vlib/breaker_prompt.txt').read().replace('{WT}','/tmp/seed_'+pid+os.environ.get("SUF","b")).replace('{PROP}',prop)
 if prev:
     t=t.replace("Task: make a small change","Other engineers have already planted these bugs for this property (do NOT repeat them; pick a different function, clause of the property or mechanism):\n"+"\n".join(" - "+x for x in prev)+"\n\nTask: make a small change",1)
-open('/tmp/seed_%sb.prompt.txt'%pid,'w').write(t)
+open('/tmp/seed_%s%s.prompt.txt'%(pid,os.environ.get("SUF","b")),'w').write(t)
 PY
 done
